@@ -27,6 +27,11 @@ type C13Case struct {
 	// KeyCache > 0: the unfolder's key cache is enabled with this capacity (the
 	// cache must never change a result)
 	KeyCache int `json:"key_cache,omitempty"`
+	// Pre: the target variable already holds this generated value (slices with
+	// spare capacity, maps with entries, allocated pointers). Only what the
+	// statement says about such targets is checked: the outcome, and that every
+	// slice ends up with exactly the stream's number of elements.
+	Pre *gomodel.GoVal `json:"pre,omitempty"`
 }
 
 // feedEvents delivers the stream to the unfolder: directly, or encoded with a
@@ -117,6 +122,13 @@ func checkC13(ci any, info *CaseInfo) string {
 			gomodel.Prefill(target.Elem())
 			info.Class("prefilled")
 		}
+		if c.Pre != nil {
+			if rv, err := gomodel.Materialize(typ, c.Pre); err == nil {
+				info.Class("prepopulated_target")
+				target.Elem().Set(rv)
+				growCaps(target.Elem(), 0)
+			}
+		}
 		merr := gomodel.Assign(expected.Elem(), streamV)
 		unknown, conv := countUnknownAndConversions(c.Evs)
 		info.NonTrivial = unknown > 0 || conv > 0
@@ -148,6 +160,12 @@ func checkC13(ci any, info *CaseInfo) string {
 		}
 		if o.Err != nil {
 			return fmt.Sprintf("unfolding a matching stream fails at %s: %v\n  %s", where, o.Err, desc)
+		}
+		if c.Pre != nil {
+			if m := gomodel.SliceLens(target.Elem(), dedupTree(streamV), "$", 0); m != "" {
+				return fmt.Sprintf("unfolding into a variable that already held a value: %s\n  got %+v\n  %s", m, safeInterface(target.Elem()), desc)
+			}
+			return ""
 		}
 		if d := gomodel.GoEqualRoute(expected.Elem(), target.Elem(), routeRules(c.Route)); d != "" {
 			return fmt.Sprintf("unfolding does not assign exactly the stream's value: %s\n  expected %+v\n  got      %+v\n  %s", d, safeInterface(expected.Elem()), safeInterface(target.Elem()), desc)
@@ -350,7 +368,7 @@ func drawC13(t *rapid.T) any {
 	}
 	route := rapid.SampledFrom(routes).Draw(t, "route")
 	vcfg := gomodel.ValCfg{ValidUTF8: route == "json", Finite: route == "json", NoBigUint: route == "ubjson", Budget: 40}
-	g := drawGoCase(t, gomodel.TypeCfg{Tags: true, Pool: true, InlineOnlyStruct: true, TopStruct: rapid.Bool().Draw(t, "topstruct")}, vcfg)
+	g := drawGoCase(t, gomodel.TypeCfg{Tags: true, Pool: true, InlineOnlyStruct: true, Normalising: true, TopStruct: rapid.Bool().Draw(t, "topstruct")}, vcfg)
 	typ, rv, err := g.build()
 	if err != nil {
 		t.Fatalf("harness: %v", err)
@@ -370,6 +388,11 @@ func drawC13(t *rapid.T) any {
 	var evs []model.Ev
 	r.render(v, &evs)
 	c := &C13Case{Mode: "typed", Type: &g.Type, Evs: evs, Route: route, Prefill: rapid.Bool().Draw(t, "prefill")}
+	if rapid.IntRange(0, 4).Draw(t, "pre") == 0 {
+		gv := gomodel.DrawValue(t, typ, gomodel.ValCfg{Budget: 25})
+		c.Pre = &gv
+		c.Prefill = false
+	}
 	if rapid.IntRange(0, 4).Draw(t, "keycache") == 0 {
 		c.KeyCache = rapid.SampledFrom([]int{1, 2, 8}).Draw(t, "keycachecap")
 	}
@@ -460,7 +483,7 @@ func enumC13(emit func(c any) bool) {
 func init() {
 	register(&Property{
 		ID:            "C13",
-		Rule:          "(a) generic: gen.Stream (strings/keys by value or by reference, announced/unknown lengths, element-type hints, extended events) into *interface{}; oracle = independently built generic Go value (typed slices/maps where a BaseType is announced, last duplicate wins), compared with exact Go types. (b) typed: generated supported Go type and value, rendered from the fold model as a PERTURBED stream — every number through any numeric event kind that holds it (all integer widths, float32<->float64, integers for integral floats, integral floats for small integers on direct delivery), strings/keys by value or reference, members permuted, members omitted, scalar members duplicated, unknown members of every shape (scalars, by-reference strings, nested objects with keys, arrays, typed arrays) at drawn positions and depths — delivered directly or through the json/ubjson/cborl encoder+parser into a fresh or sentinel-prefilled target, 1 in 5 with the unfolder's key cache enabled; oracle = reference model of assignment (gomodel.Assign) applied to the tree of the very same stream, every event method must return nil, unfolder stacks idle. Deterministic part: the full numeric conversion matrix (11 integer event kinds + 2 float kinds x 12 numeric target kinds x boundary values that fit) as scalar target, struct field, slice element and map value, and through the primitive user unfolder of the target kind (as target, []*T element, struct field and map value). non-trivial = at least one unknown member or one width conversion (generic mode: more than one event); distinct by case hash",
+		Rule:          "(a) generic: gen.Stream (strings/keys by value or by reference, announced/unknown lengths, element-type hints, extended events) into *interface{}; oracle = independently built generic Go value (typed slices/maps where a BaseType is announced, last duplicate wins), compared with exact Go types. (b) typed: generated supported Go type and value, rendered from the fold model as a PERTURBED stream — every number through any numeric event kind that holds it (all integer widths, float32<->float64, integers for integral floats, integral floats for small integers on direct delivery), strings/keys by value or reference, members permuted, members omitted, scalar members duplicated, unknown members of every shape (scalars, by-reference strings, nested objects with keys, arrays, typed arrays) at drawn positions and depths — delivered directly or through the json/ubjson/cborl encoder+parser into a fresh or sentinel-prefilled target (1 in 5: a target that already holds a generated value — only the outcome and the lengths of all slices are checked then), 1 in 5 with the unfolder's key cache enabled; oracle = reference model of assignment (gomodel.Assign) applied to the tree of the very same stream, every event method must return nil, unfolder stacks idle. Deterministic part: the full numeric conversion matrix (11 integer event kinds + 2 float kinds x 12 numeric target kinds x boundary values that fit) as scalar target, struct field, slice element and map value, and through the primitive user unfolder of the target kind (as target, []*T element, struct field and map value). non-trivial = at least one unknown member or one width conversion (generic mode: more than one event); distinct by case hash",
 		New:           func() any { return &C13Case{} },
 		Draw:          drawC13,
 		Check:         checkC13,
@@ -468,3 +491,6 @@ func init() {
 		AlwaysCurCase: true,
 	})
 }
+
+// dedupTree is the identity here: SliceLens itself lets the last duplicate win.
+func dedupTree(v model.V) model.V { return v }
